@@ -159,7 +159,8 @@ def run(ck: Check):
         ("MC_Pareto_exh33.cfg", "small", None),
         ("MC_Pareto_exh42.cfg", "small4", None),
     ]
-    if thorough:
+    if thorough and os.environ.get("C11_EXH43"):
+        # every 4x3 matrix over {0,1,inf} x every goal multiset: several million cases, hours of replay
         plan += [("MC_Pareto_exh43.cfg", "small", None)]
     nrand = 1 if not thorough else 6
     for i in range(nrand):
